@@ -89,7 +89,10 @@ PROPS['C10'] = {
 
 PROPS['C03'] = {
     'module': 'Yabgp.Props.C03All',
-    'theorems': ['Yabgp.C03_contract_holds', 'Yabgp.timInv_step', 'Yabgp.C03_rest_keeps_timers', 'Yabgp.C03_contract_survives_rest', 'Yabgp.C01_keepalive_timer_expires',
+    'theorems': ['Yabgp.C03_contract_holds', 'Yabgp.timInv_step', 'Yabgp.C03_rest_keeps_timers', 'Yabgp.C03_contract_survives_rest',
+                 'Yabgp.C03_keepalive_deadline_moves_only_when_sent', 'Yabgp.C03_hold_deadline_moves_only_on_arrival',
+                 'Yabgp.C03_deadlines_fixed_by_other_events', 'Yabgp.C03_clock_never_passes_a_deadline',
+                 'Yabgp.C03_hold_time_fixed_in_session', 'Yabgp.C01_keepalive_timer_expires',
                  'Yabgp.C01_hold_timer_expires', 'Yabgp.C01_keepalive_msg', 'Yabgp.C01_update_msg',
                  'Yabgp.C01_open_accepted', 'Yabgp.C01_tcp_connected'],
     'genagree': SESSION_GEN,
@@ -98,7 +101,11 @@ PROPS['C03'] = {
     'level_text': 'Lean 4 invariant proved by induction over ALL event sequences from boot (any configuration, any peer '
                   'schedule, any same-instant order of expiry and arrival, any number of sessions): in OpenConfirm / '
                   'Established with H > 0 a KEEPALIVE is due within H/3 and the hold deadline within H; with H = 0 neither '
-                  'timer exists; plus per-event theorems for expiry and restart. Tied to /repo by the session '
+                  'timer exists; plus per-event theorems for expiry and restart, and - because "due within" alone is weak under '
+                  'repetition - one-step theorems that the deadlines move only for the right reason: while the session lasts '
+                  'the KEEPALIVE deadline is replaced only by the keepalive timer expiring (a KEEPALIVE is written, the next one '
+                  'scheduled exactly H/3 later), the hold deadline only by a chunk that reported a KEEPALIVE or UPDATE (then exactly '
+                  'H after that moment), the hold time itself never, and the clock never passes a deadline. Tied to /repo by the session '
                   'correspondence, which compares the pending reactor call times after every event.',
 }
 
